@@ -247,7 +247,8 @@ def w_landmarks(ctx, rng, i):
                 if cls == "LabelledPointUndirectedGraph" and rng.random() < 0.4:
                     s = with_empty_label(rng, s)
                 # (names are kept code point by code point: a decomposed accent and the precomposed letter are two names)
-                lm[[["zz", "aa", "Ünï", "g 1", "0"], ["e\u0301", "\u00e9", "A\u030a", "\u2126", "\u03a9"]][int(rng.random() < 0.3)][g] if rng.random() < 0.7 else "k%d" % g] = s
+                # (a name taken from a file name that is not valid UTF-8 carries a lone surrogate - os.fsdecode: a name like any other)
+                lm[[["zz", "aa", "Ünï", "g 1", "0"], ["e\u0301", "\u00e9", "A\u030a", "\u2126", "\u03a9"], ["caf\udce9", "x\udcff y", "\udc80", "plain", "Ünï\udce9"]][int(rng.integers(0, 3)) if rng.random() < 0.45 else 0][g] if rng.random() < 0.7 else "k%d" % g] = s
             if rng.random() < 0.3:
                 lm["empty_edges"] = ms.PointUndirectedGraph.init_from_edges(gen.points(rng, 3, d), None)
             obj = lm
@@ -262,6 +263,31 @@ def w_landmarks(ctx, rng, i):
             except Exception as e:
                 ctx.fail("exported_file_cannot_be_imported", cls="ljson", mech=type(e).__name__, error=repr(e)[:200])
                 back = None
+            if back is not None and i % 25 == 3 and any(ord(c_) > 127 for k_ in groups for c_ in k_):
+                # the file is read back by another process whose default text encoding is not UTF-8 (a cron job, a minimal
+                # container: the C locale): the same names
+                import subprocess, sys as _sys, json as _json, menpo as _menpo, shutil as _shutil, tempfile as _tempfile
+                # (a byte-for-byte copy under a plain ASCII name: the question is the content, not whether that process can spell the path)
+                adir_ = _tempfile.mkdtemp(prefix="vf_c16_")
+                ascii_copy = os.path.join(adir_, "copy.ljson")
+                _shutil.copyfile(ab, ascii_copy)
+                code = ("import sys, json, warnings; warnings.simplefilter('ignore'); sys.path.insert(0, %r); import menpo.io as mio; "
+                        "print('NAMES=' + json.dumps(sorted(mio.import_landmark_file(%r).keys())))") % (os.path.dirname(os.path.dirname(_menpo.__file__)), ascii_copy)
+                env_ = dict(os.environ, LC_ALL="C", LANG="C", PYTHONUTF8="0", PYTHONCOERCECLOCALE="0")
+                env_.pop("MENPO_VERIF", None)
+                ctx.tap("import_in_a_process_with_another_default_encoding", "calls")
+                try:
+                    pr_ = subprocess.run([_sys.executable, "-c", code], capture_output=True, text=True, timeout=120, env=env_, encoding="ascii", errors="backslashreplace")
+                    line_ = [l_ for l_ in pr_.stdout.splitlines() if l_.startswith("NAMES=")]
+                    ctx.tap("import_in_a_process_with_another_default_encoding", "checked")
+                    if pr_.returncode != 0 or not line_:
+                        ctx.fail("exported_file_cannot_be_imported", cls="ljson", mech="default_encoding_not_utf8:" + (pr_.stderr.strip().splitlines() or ["?"])[-1].split(":")[0][:40])
+                    elif _json.loads(line_[0][6:]) != sorted(groups):
+                        ctx.fail("ljson_group_names_changed", cls="ljson", mech="default_encoding_not_utf8")
+                except subprocess.TimeoutExpired:
+                    ctx.bump("other_locale_import_timed_out")
+                finally:
+                    _shutil.rmtree(adir_, ignore_errors=True)
             if back is not None:
                 if set(back.keys()) != set(groups.keys()):
                     ctx.fail("ljson_group_names_changed", cls="ljson", before=sorted(groups), after=sorted(back))
@@ -448,6 +474,10 @@ def w_images(ctx, rng, i):
                 pc = ms.PointCloud(np.round(rng.uniform(0, 1, (4, 2)) * (np.array([H, W]) - 1), 3))
                 mio.export_landmark_file(pc, os.path.join(sb.dir, st + ".pts"))
                 lj = ms.PointCloud(rng.uniform(0, 1, (3, 2)) * (np.array([H, W]) - 1))
+                if rng.random() < 0.35:
+                    # the landmarks of the 3D mesh this texture belongs to, exported under the same name: not landmarks of a 2D
+                    # image - they are left out, the 2D ones come in as ever
+                    lj = ms.PointCloud(rng.uniform(0, 1, (3, 3)))
                 mio.export_landmark_file(lj, os.path.join(sb.dir, st + ".ljson"))
                 want[st] = (pc.points.copy(), lj.points.copy())
             for st in stems:
@@ -455,6 +485,8 @@ def w_images(ctx, rng, i):
                 ctx.tap("landmarks_next_to_images", "calls"); ctx.tap("landmarks_next_to_images", "checked")
                 ok_pts = "PTS" in got.landmarks and got.landmarks["PTS"].points.shape == want[st][0].shape and np.abs(got.landmarks["PTS"].points - want[st][0]).max() <= 5.1e-4
                 ok_lj = "LJSON" in got.landmarks and got.landmarks["LJSON"].points.shape == want[st][1].shape and np.array_equal(got.landmarks["LJSON"].points, want[st][1])
+                if want[st][1].shape[1] == 3:
+                    ok_lj = "LJSON" not in got.landmarks
                 if not ok_pts:
                     ctx.fail("pts_coordinates_changed_beyond_three_decimals", cls="PointCloud", mech="imported_next_to_an_image:" + ("multi_dot_name" if "." in st else "plain_name"))
                 if not ok_lj:
